@@ -16,7 +16,38 @@ def sh(cmd, **kw):
     return subprocess.run(cmd, shell=True, text=True, stdout=subprocess.PIPE, stderr=subprocess.STDOUT, **kw)
 
 
+def refactorings(names):
+    """behaviour-preserving refactorings (refactorings/<name>/patch.diff): all 16 quick checks must stay silent"""
+    props = ["C%02d" % i for i in range(1, 17)]
+    alarms = []
+    for n in names:
+        patch = os.path.join(VERIF, "refactorings", n, "patch.diff")
+        r = sh("git apply --whitespace=nowarn %s" % patch, cwd=REPO)
+        if r.returncode != 0:
+            print("%s APPLY-FAILED %s" % (n, r.stdout.strip()[:200]), flush=True)
+            alarms.append(n)
+            continue
+        t0 = time.time()
+        bad = []
+        try:
+            for c in props:
+                p = sh("./check %s --tier quick" % c, cwd=VERIF)
+                if p.returncode != 0:
+                    bad.append((c, p.returncode, [l for l in p.stdout.splitlines() if l.startswith("VIOLATION")][:2]))
+        finally:
+            sh("git apply -R --whitespace=nowarn %s" % patch, cwd=REPO)
+            sh("rm -rf %s/replays" % VERIF)
+        print("%s %s %.0fs" % (n, ("ALARMS %s" % bad) if bad else "silent", time.time() - t0), flush=True)
+        if bad:
+            alarms.append(n)
+    print("done: %d refactorings, alarms on %s" % (len(names), alarms), flush=True)
+    return 1 if alarms else 0
+
+
 def main():
+    if len(sys.argv) > 1 and sys.argv[1] == "--refactorings":
+        names = sys.argv[2:] or sorted(os.listdir(os.path.join(VERIF, "refactorings")))
+        return refactorings(names)
     want = sys.argv[1:]
     names = sorted(os.path.basename(os.path.dirname(m)) for m in glob.glob(os.path.join(VERIF, "seeded", "*", "meta.json")))
     if want:
